@@ -459,6 +459,82 @@ def run(tier, seed, build=True):
                             feats["fraction_digits"] = var[1]
                         res.violation(dict(feats, symptom="wrong-instant"), "entry %d: %r attributed %+.9f s away from the instant it denotes (-t %s)" % (e, ln[:90], d, tzarg), rep)
             res.distinct(("template", e))
+        # ---- stage D: a message whose TEXT carries a second date in another documented notation. The file uses one notation
+        # (at line start, with a written UTC offset) throughout; the first message embeds every documented example line in turn.
+        # Every message must still be attributed the instant of its own leading timestamp ("does an earlier, more general pattern
+        # steal the match?"). Files are > 8096 bytes so that block-zero analysis votes over several messages.
+        leads = []
+        for e, ex, groups in templates:
+            tzg = [g for g in groups if g[0] == "tz"]
+            if ex["begin"] != 0 or not tzg or consts.get(ex["tz"]) is None:
+                continue
+            if style_of("tz", ex["line"].encode("utf-8")[tzg[0][1]:tzg[0][2]].decode("utf-8", "replace")) == "tz-name":
+                continue
+            if any(g[0] == "fractional" for g in groups):
+                continue
+            leads.append((e, ex, groups))
+        leads = leads[:: max(1, len(leads) // (3 if tier == "quick" else 8))][: (3 if tier == "quick" else 8)]
+        emb_seen = set()
+        embedded = []
+        for i, ex in enumerate(examples):
+            if tier == "quick" and ex["entry"] in emb_seen:
+                continue
+            emb_seen.add(ex["entry"])
+            embedded.append((i, ex))
+        djobs = [(lead, emb, nl) for lead in leads for emb in embedded if emb[1]["entry"] != lead[0] for nl in (80, 3)]
+
+        def stage_d(job):
+            (le, lex, lgroups), (ei, eex), nl = job
+            lines, exps = [], []
+            for k in range(nl):
+                t = (2024, 3, 5, 10, k // 60, k % 60, 0)
+                stamp, _why = instantiate(lex, lgroups, t, 330, None)
+                if stamp is None:
+                    return job, None, None, None
+                stamp = stamp[: lex["end"] + (len(stamp) - len(lex["line"].encode("utf-8")))] if False else stamp
+                lines.append(stamp)
+                exps.append(epoch_ns(t, 330 * 60))
+            # keep only the lead example's timestamp part as the line head
+            head_len = None
+            out_lines = []
+            for k, ln in enumerate(lines):
+                # the example's own text after its timestamp is replaced by ours
+                endpos = lex["end"] + (len(ln) - len(lex["line"].encode("utf-8")))
+                head = ln[:endpos]
+                if k == 0:
+                    body = b" host app[1]: noted " + eex["line"].encode("utf-8")
+                else:
+                    body = b" host app[1]: ordinary message number %04d " % k + b"." * 60
+                out_lines.append(head + body)
+            r = run_file(work, "d%d_%d_%d.log" % (le, ei, nl), out_lines, "-03:30", gen.days_from_civil(2024, 6, 30) * 86400)
+            return job, out_lines, exps, r
+        nD = 0
+        for job, out_lines, exps, r in common.pmap(stage_d, djobs):
+            (le, lex, lgroups), (ei, eex), nl = job
+            if out_lines is None:
+                continue
+            nD += 1
+            res.count()
+            res.distinct(("embedded", le, eex["entry"], nl))
+            got = parse_out(r.out)
+            feats = {"stage": "embedded-second-date", "lead_entry": le, "embedded_entry": eex["entry"], "embedded_listed_before_lead": eex["entry"] < le,
+                     "file_smaller_than_8096": sum(len(l) + 1 for l in out_lines) < 8096}
+            rep = {"engine": "E-CLI", "args": ["--color", "never", "-u", "-d", DTFMT, "-t=-03:30", "x.log"], "files": {"x.log": common.b64(b"".join(l + b"\n" for l in out_lines))},
+                   "mtime": gen.days_from_civil(2024, 6, 30) * 86400}
+            if r.rc not in (0, 1) or r.timed_out:
+                res.violation(dict(feats, symptom="crash"), "lead entry %d with an embedded example of entry %d: rc=%s" % (le, eex["entry"], r.rc), rep)
+                continue
+            stamped = [(ns, txt) for ns, txt in got if ns is not None]
+            if len(stamped) != len(out_lines) or [t for _, t in stamped] != out_lines:
+                res.violation(dict(feats, symptom="messages-not-separated", printed=min(len(stamped), 99)),
+                              "file in notation of entry %d whose first message embeds %r: %d of %d lines printed as messages of their own" % (le, eex["line"][:60], len(stamped), len(out_lines)), rep)
+                continue
+            wrong = [k for k, ((ns, _), e_) in enumerate(zip(stamped, exps)) if ns != e_]
+            if wrong:
+                res.violation(dict(feats, symptom="wrong-instant", only_first_message=wrong == [0]),
+                              "file in notation of entry %d whose first message embeds %r: message %d attributed %+.3f s away from its leading timestamp" % (
+                                  le, eex["line"][:60], wrong[0], (stamped[wrong[0]][0] - exps[wrong[0]]) / 1e9), rep)
+        res.coverage["embedded_second_date_files"] = nD
         # ---- stage C: zone abbreviations in notations that carry a named zone: unambiguous ones denote their offset,
         # ambiguous ones (the project table's empty entries) are read in the --tz-offset zone
         ambiguous = c14.ambiguous_names()[: (6 if tier == "quick" else 40)]
